@@ -213,12 +213,57 @@ fn recover_syncs_ht_before_truncating_wal() {
 // (run by `cargo kani playback`).  The test binary interposes the libc entry points std::fs::File
 // uses, so the trace below is the real I/O of the real code; nothing is simulated.
 #[cfg(test)]
-mod native_io {
+pub(crate) mod native_io {
     use std::sync::atomic::{AtomicBool, Ordering};
     use std::sync::Mutex;
+    /// tests that read the process-wide trace or arm the crash counter take this lock
+    pub static SERIAL: Mutex<()> = Mutex::new(());
     pub static LOGGING: AtomicBool = AtomicBool::new(false);
     pub static TRACE: Mutex<Vec<(&'static str, String)>> = Mutex::new(Vec::new());
+    /// crash-point enumeration (merkle::page_walker::verif_kani::native_enum_crash_points_*): when
+    /// armed, the process exits with status 77 right BEFORE its CRASH_AT-th mutating system call
+    pub static ARMED: AtomicBool = AtomicBool::new(false);
+    pub static MUTATIONS: std::sync::atomic::AtomicI64 = std::sync::atomic::AtomicI64::new(0);
+    pub static CRASH_AT: std::sync::atomic::AtomicI64 = std::sync::atomic::AtomicI64::new(-1);
+    fn mutation() {
+        if ARMED.load(Ordering::SeqCst) {
+            let n = MUTATIONS.fetch_add(1, Ordering::SeqCst) + 1;
+            if n == CRASH_AT.load(Ordering::SeqCst) {
+                unsafe { libc::_exit(77) };
+            }
+        }
+    }
+    /// the raw x86-64 system call (libc's `syscall` is interposed below, so it cannot be used here)
+    #[cfg(target_arch = "x86_64")]
+    unsafe fn raw(n: libc::c_long, a1: usize, a2: usize, a3: usize, a4: usize, a5: usize, a6: usize) -> isize {
+        let r: isize;
+        core::arch::asm!("syscall", inlateout("rax") n as isize => r, in("rdi") a1, in("rsi") a2, in("rdx") a3, in("r10") a4, in("r8") a5, in("r9") a6,
+            lateout("rcx") _, lateout("r11") _, options(nostack));
+        r
+    }
+    /// kernel convention (-errno) -> libc convention (-1 and errno)
+    unsafe fn ret(r: isize) -> isize {
+        if r < 0 && r > -4096 {
+            *libc::__errno_location() = (-r) as libc::c_int;
+            -1
+        } else {
+            r
+        }
+    }
+    /// libc's variadic `syscall`, which the io-uring crate uses for io_uring_enter: every submission
+    /// of page writes counts as one mutating call (variadic integer arguments travel in the same
+    /// registers as six fixed ones)
+    #[no_mangle]
+    pub unsafe extern "C" fn syscall(n: libc::c_long, a1: usize, a2: usize, a3: usize, a4: usize, a5: usize, a6: usize) -> libc::c_long {
+        if n == libc::SYS_io_uring_enter && a2 > 0 {
+            mutation();
+        }
+        ret(raw(n, a1, a2, a3, a4, a5, a6)) as libc::c_long
+    }
     fn note(op: &'static str, fd: i32) {
+        if op != "fsync" {
+            mutation();
+        }
         if LOGGING.load(Ordering::SeqCst) {
             let name = std::fs::read_link(format!("/proc/self/fd/{}", fd))
                 .ok()
@@ -230,22 +275,34 @@ mod native_io {
     #[no_mangle]
     pub unsafe extern "C" fn fsync(fd: libc::c_int) -> libc::c_int {
         note("fsync", fd);
-        libc::syscall(libc::SYS_fsync, fd) as libc::c_int
+        ret(raw(libc::SYS_fsync, fd as usize, 0, 0, 0, 0, 0)) as libc::c_int
     }
     #[no_mangle]
     pub unsafe extern "C" fn fdatasync(fd: libc::c_int) -> libc::c_int {
         note("fsync", fd);
-        libc::syscall(libc::SYS_fdatasync, fd) as libc::c_int
+        ret(raw(libc::SYS_fdatasync, fd as usize, 0, 0, 0, 0, 0)) as libc::c_int
     }
     #[no_mangle]
     pub unsafe extern "C" fn pwrite64(fd: libc::c_int, buf: *const libc::c_void, n: libc::size_t, off: libc::off64_t) -> libc::ssize_t {
         note("pwrite", fd);
-        libc::syscall(libc::SYS_pwrite64, fd, buf, n, off) as libc::ssize_t
+        ret(raw(libc::SYS_pwrite64, fd as usize, buf as usize, n, off as usize, 0, 0)) as libc::ssize_t
     }
     #[no_mangle]
     pub unsafe extern "C" fn ftruncate64(fd: libc::c_int, len: libc::off64_t) -> libc::c_int {
         note("ftruncate", fd);
-        libc::syscall(libc::SYS_ftruncate, fd, len) as libc::c_int
+        ret(raw(libc::SYS_ftruncate, fd as usize, len as usize, 0, 0, 0, 0)) as libc::c_int
+    }
+    #[no_mangle]
+    pub unsafe extern "C" fn write(fd: libc::c_int, buf: *const libc::c_void, n: libc::size_t) -> libc::ssize_t {
+        if fd > 2 {
+            note("write", fd);
+        }
+        ret(raw(libc::SYS_write, fd as usize, buf as usize, n, 0, 0, 0)) as libc::ssize_t
+    }
+    #[no_mangle]
+    pub unsafe extern "C" fn unlink(path: *const libc::c_char) -> libc::c_int {
+        mutation();
+        ret(raw(libc::SYS_unlink, path as usize, 0, 0, 0, 0, 0)) as libc::c_int
     }
 }
 
@@ -281,6 +338,7 @@ fn native_page_id(tag: u8) -> [u8; 32] {
 #[cfg(test)]
 #[test]
 fn native_enum_recover_postcondition() {
+    let _serial = native_io::SERIAL.lock().unwrap_or_else(|e| e.into_inner());
     use crate::io::PAGE_SIZE;
     use crate::{merkle::ElidedChildren, page_diff::PageDiff};
     use std::os::unix::fs::FileExt;
